@@ -99,7 +99,10 @@ func (r *Run) Fork(n int) bool {
 		go func(i int) {
 			defer wg.Done()
 			outs[i] = filepath.Join(dir, fmt.Sprintf("w%d.json", i))
-			cmd := exec.Command(os.Args[0], os.Args[1:]...)
+			// every worker runs under an address-space limit: a runaway allocation in the code under test must
+			// kill one worker (reported as an internal error), not the machine
+			sh := `ulimit -v 16000000 2>/dev/null; exec "$0" "$@"`
+			cmd := exec.Command("/bin/sh", append([]string{"-c", sh, os.Args[0]}, os.Args[1:]...)...)
 			cmd.Env = append(os.Environ(), fmt.Sprintf("VERIF_WORKER=%d/%d", i, n), "VERIF_WORKER_OUT="+outs[i], "GOMAXPROCS=2")
 			cmd.Stderr = os.Stderr
 			cmd.Stdout = os.Stderr
